@@ -198,6 +198,12 @@ func (c *NoiseGrpcConn) ClientHandshake(_ context.Context, _ string,
 	}
 	c.ProxyConn = transportConn
 
+	// What is left of a message that was read on the previous connection
+	// belongs to that connection: it must not be handed out on this one.
+	c.nextMsgMtx.Lock()
+	c.nextMsg = nil
+	c.nextMsgMtx.Unlock()
+
 	// First, initialize a new noise machine with our static long term, and
 	// passphraseEntropy.
 	var err error
@@ -258,6 +264,12 @@ func (c *NoiseGrpcConn) ServerHandshake(conn net.Conn) (net.Conn,
 		return nil, nil, fmt.Errorf("invalid connection type")
 	}
 	c.ProxyConn = transportConn
+
+	// What is left of a message that was read on the previous connection
+	// belongs to that connection: it must not be handed out on this one.
+	c.nextMsgMtx.Lock()
+	c.nextMsg = nil
+	c.nextMsgMtx.Unlock()
 
 	// First, we'll initialize a new state machine with our static key,
 	// remote static key, passphrase, and also the authentication data.
